@@ -149,6 +149,28 @@ struct Scene {
     }
 };
 
+// ids of edges that were built as closed paths (cluster boundaries)
+static std::set<unsigned> g_cyclic;
+
+// consistency of the doubly linked segment list of a closed path:
+//   C <e> <nSegments> <walked> <reachedLast> <closed> <ring> <ringClosed>
+// walked = segments met from firstSegment following end->outSegment up to lastSegment; closed =
+// lastSegment->end == firstSegment->start; ring = steps from firstSegment->start along outSegment links
+// until the start point is met again (ringClosed) or the chain ends / exceeds the cap.
+static void printCycleInfo(const topology::Edge *e) {
+    size_t cap = e->nSegments + 8, walked = 0, ring = 0;
+    bool reachedLast = false;
+    for (topology::Segment *sg = e->firstSegment; sg && walked < cap;) {
+        ++walked;
+        if (sg == e->lastSegment) { reachedLast = true; break; }
+        sg = sg->end->outSegment;
+    }
+    bool closed = e->lastSegment->end == e->firstSegment->start;
+    topology::EdgePoint *start = e->firstSegment->start, *pt = start;
+    do { topology::Segment *o = pt->outSegment; if (!o) break; pt = o->end; ++ring; } while (pt != start && ring < cap);
+    printf("C %u %zu %zu %d %d %zu %d\n", e->id, e->nSegments, walked, (int) reachedLast, (int) closed, ring, (int) (pt == start));
+}
+
 static void printState(const char *kind, int dim, const topology::Nodes &nodes, const topology::Edges &edges) {
     printf("S %s %d\n", kind, dim);
     for (size_t i = 0; i < nodes.size(); ++i) {
@@ -164,6 +186,7 @@ static void printState(const char *kind, int dim, const topology::Nodes &nodes, 
             printf(" %u %d %s %s", path[j]->node->id, (int) path[j]->rectIntersect,
                    hx(path[j]->posX()).c_str(), hx(path[j]->posY()).c_str());
         printf("\n");
+        if (g_cyclic.count(edges[e]->id)) printCycleInfo(edges[e]);
     }
     fflush(stdout);
 }
@@ -283,6 +306,7 @@ static void printHeader(const Scene &sc) {
     g_nodes = &sc.nodes; g_edges = &sc.edges; g_dim = 2;
     printf("N %zu\n", sc.nodes.size());
     for (size_t e = 0; e < sc.edges.size(); ++e) printf("E %zu %u %u\n", e, sc.ends[e].first, sc.ends[e].second);
+    for (size_t e = 0; e < sc.edges.size(); ++e) if (g_cyclic.count(sc.edges[e]->id)) printf("Y %zu\n", e);
     printState("init", 2, sc.nodes, sc.edges);
 }
 
@@ -714,6 +738,109 @@ static void sceneGridTiesCase(vh::Rng &r, bool thorough) {
     }
 }
 
+
+// ------------------------------------------------------------------ closed boundary paths
+//
+// scene-cycles: a cyclic topology::Edge - the convex hull of the corners of 2-4 member nodes, as
+// ColaTopologyAddon::makeFeasible builds for a ConvexCluster (last EdgePoint == first EdgePoint) -
+// listed counter-clockwise starting from a random hull corner (the join point of the list varies),
+// plus 1-3 outside nodes. History: members are dragged inward (hull bends straighten and are pruned,
+// the join-point bend included), then outside nodes are dragged against / across the boundary.
+static double cross2(double ax, double ay, double bx, double by, double cx, double cy) { return (bx - ax) * (cy - ay) - (cx - ax) * (by - ay); }
+
+struct HullPt { double x, y; unsigned node; int ri; };
+static bool hullLess(const HullPt &a, const HullPt &b) { return a.x < b.x || (a.x == b.x && a.y < b.y); }
+
+static std::vector<HullPt> hullOfMembers(const Scene &sc, unsigned members) {
+    std::vector<HullPt> pts;
+    for (unsigned i = 0; i < members; ++i) for (int ri = 0; ri < 4; ++ri) {
+        EP tmp(sc.nodes[i], (EP::RectIntersect) ri);
+        HullPt h = {tmp.posX(), tmp.posY(), i, ri};
+        pts.push_back(h);
+    }
+    std::sort(pts.begin(), pts.end(), hullLess);
+    std::vector<HullPt> h(2 * pts.size());
+    size_t k = 0;
+    for (size_t i = 0; i < pts.size(); ++i) {            // lower hull, strict (collinear points dropped)
+        while (k >= 2 && cross2(h[k - 2].x, h[k - 2].y, h[k - 1].x, h[k - 1].y, pts[i].x, pts[i].y) <= 0) --k;
+        h[k++] = pts[i];
+    }
+    for (size_t i = pts.size() - 1, t = k + 1; i > 0; --i) {
+        while (k >= t && cross2(h[k - 2].x, h[k - 2].y, h[k - 1].x, h[k - 1].y, pts[i - 1].x, pts[i - 1].y) <= 0) --k;
+        h[k++] = pts[i - 1];
+    }
+    h.resize(k - 1);                                      // counter-clockwise (y up), no repeated first point
+    return h;
+}
+
+static bool insidePoly(const std::vector<HullPt> &h, double x, double y) {
+    bool in = false;
+    for (size_t i = 0, j = h.size() - 1; i < h.size(); j = i++)
+        if ((h[i].y > y) != (h[j].y > y) && x < (h[j].x - h[i].x) * (y - h[i].y) / (h[j].y - h[i].y) + h[i].x) in = !in;
+    return in;
+}
+
+static void sceneCyclesCase(vh::Rng &r, bool thorough) {
+    Scene sc;
+    g_cyclic.clear();
+    int members = (int) r.range(2, 4);
+    genRects(r, sc, members, 90, r.range(2, 6), 20);
+    members = (int) sc.rs.size();
+    if (members < 2) { printHeader(sc); return; }
+    std::vector<HullPt> hull = hullOfMembers(sc, (unsigned) members);
+    // outside nodes
+    int outs = (int) r.range(1, 3), tries = 0;
+    while ((int) sc.rs.size() < members + outs && tries++ < 300) {
+        long w = r.range(4, 12), hgt = r.range(4, 12), x = r.range(-40, 140), y = r.range(-40, 140);
+        vpsc::Rectangle cand(x, x + w, y, y + hgt);
+        bool ok = !insidePoly(hull, x + w / 2.0, y + hgt / 2.0);
+        for (size_t i = 0; i < hull.size() && ok; ++i) {
+            const HullPt &a = hull[i], &b = hull[(i + 1) % hull.size()];
+            ok = !segHitsRect(a.x, a.y, b.x, b.y, &cand, -1.5);
+        }
+        for (size_t i = 0; i < sc.rs.size() && ok; ++i) ok = !rectsOverlap(&cand, sc.rs[i], 1.0);
+        if (ok) sc.addNode(x, x + w, y, y + hgt);
+    }
+    // the closed path, listed from a random hull corner
+    size_t rot = (size_t) r.range(0, (long) hull.size() - 1);
+    topology::EdgePoints eps;
+    for (size_t i = 0; i < hull.size(); ++i) {
+        const HullPt &hp = hull[(i + rot) % hull.size()];
+        eps.push_back(new EP(sc.nodes[hp.node], (EP::RectIntersect) hp.ri));
+    }
+    eps.push_back(eps[0]);
+    sc.edges.push_back(new topology::Edge(0, 300, eps));
+    sc.ends.push_back(std::make_pair(eps[0]->node->id, eps[0]->node->id));
+    g_cyclic.insert(0);
+    printHeader(sc);
+    unsigned n = sc.nodes.size();
+    int budget = thorough ? 160 : 90;
+    int inward = (int) r.range(1, 3), outward = (int) r.range(1, 3);
+    unsigned joinNode = hull[rot].node;
+    for (int ps = 0; ps < inward + outward && budget > 0; ++ps) {
+        vpsc::Dim dim = r.coin() ? vpsc::XDIM : vpsc::YDIM;
+        std::vector<double> des(n), w(n, 1.0);
+        for (unsigned i = 0; i < n; ++i) des[i] = sc.rs[i]->getCentreD(dim);
+        if (ps < inward) {
+            // a member (often the node carrying the join point) moves towards the centroid of the others
+            unsigned id = r.coin() ? joinNode : (unsigned) r.range(0, members - 1);
+            double c = 0; int cnt = 0;
+            for (int i = 0; i < members; ++i) if ((unsigned) i != id) { c += sc.rs[i]->getCentreD(dim); ++cnt; }
+            des[id] = std::floor(c / cnt) + (double) r.range(-6, 6);
+            w[id] = 10000;
+        } else if (n > (unsigned) members) {
+            // an outside node is pushed across the cluster
+            unsigned id = (unsigned) r.range(members, n - 1);
+            double c = 0;
+            for (int i = 0; i < members; ++i) c += sc.rs[i]->getCentreD(dim);
+            c /= members;
+            des[id] = r.coin() ? std::floor(2 * c - des[id]) : std::floor(c) + (double) r.range(-10, 10);
+            w[id] = 10000;
+        }
+        dragPass(sc, dim, des, w, budget);
+    }
+}
+
 // ------------------------------------------------------------------ ConstrainedFDLayout + addon
 
 struct SnapAddon : public topology::ColaTopologyAddon {
@@ -918,6 +1045,14 @@ int main(int argc, char **argv) {
         vh::Rng r = vh::caseRng(a.seed, k);
         vh::beginCase(k, "scene-grid-ties");
         runIsolated([&]() { sceneGridTiesCase(r, thorough); });
+        vh::endCase();
+    }
+    long nCyc = (thorough ? 400 : 80) * a.scale;
+    for (long c = 0; c < nCyc; ++c, ++k) {
+        if (!a.want(k)) continue;
+        vh::Rng r = vh::caseRng(a.seed, k);
+        vh::beginCase(k, "scene-cycles");
+        runIsolated([&]() { sceneCyclesCase(r, thorough); });
         vh::endCase();
     }
     return 0;
